@@ -22,7 +22,19 @@ pub struct VehicleCfg {
 pub enum Traversal {
     Distance { unit: String },
     Speed { speed_unit: String, distance_unit: Option<String>, time_unit: Option<String> },
-    Energy { speed_unit: String, grade_unit: String, vehicles: Vec<VehicleCfg> },
+    Energy {
+        speed_unit: String,
+        grade_unit: String,
+        vehicles: Vec<VehicleCfg>,
+        /// units of the energy model itself (None: miles / minutes, as before round 2)
+        #[serde(default)]
+        distance_unit: Option<String>,
+        #[serde(default)]
+        time_unit: Option<String>,
+        /// output units of the wrapped time model (None: miles / minutes)
+        #[serde(default)]
+        time_model_units: Option<(String, String)>,
+    },
 }
 
 #[derive(Clone, Debug, Serialize, Deserialize)]
@@ -446,7 +458,7 @@ impl World {
         let traversal = match &self.traversal {
             Traversal::Distance { unit } => json!({"type": "distance", "distance_unit": unit}),
             Traversal::Speed { speed_unit, distance_unit, time_unit } => self.speed_table_cfg(speed_unit, distance_unit, time_unit),
-            Traversal::Energy { speed_unit, grade_unit, vehicles } => {
+            Traversal::Energy { speed_unit, grade_unit, vehicles, distance_unit, time_unit, time_model_units } => {
                 let vs: Vec<Value> = vehicles
                     .iter()
                     .map(|v| {
@@ -505,11 +517,11 @@ impl World {
                     .collect();
                 json!({
                     "type": "energy_model",
-                    "time_model": self.speed_table_cfg(speed_unit, &Some("miles".into()), &Some("minutes".into())),
+                    "time_model": self.speed_table_cfg(speed_unit, &Some(time_model_units.as_ref().map_or("miles".to_string(), |u| u.0.clone())), &Some(time_model_units.as_ref().map_or("minutes".to_string(), |u| u.1.clone()))),
                     "grade_table_input_file": self.table_path("grades"),
                     "grade_table_grade_unit": grade_unit,
-                    "time_unit": "minutes",
-                    "distance_unit": "miles",
+                    "time_unit": time_unit.clone().unwrap_or("minutes".into()),
+                    "distance_unit": distance_unit.clone().unwrap_or("miles".into()),
                     "vehicles": vs,
                 })
             }
